@@ -124,6 +124,17 @@ B_LawConst == /\ (KPat(p) = "all" => Sel(p) = 1..N)
 \* accumulation agrees with the list semantics when nothing is superseded
 B_LawRefine == LET f == Refine(Refine(FAll, p), q) IN
              f.c = "acc" => (f.sup = <<>> => {j \in 1..N : SelLo(f, Hist[j])} = {j \in 1..N : SelHi(f, Hist[j])})
+\* C12 in terms of what is selected: `filter p` then `filter q` selects what p or q select - unless q is `*` (no restriction) or p
+\* was `*` / `!` (q replaces it); `filter p` then `filter ! q` selects what p selects and q does not
+SelSet(f) == {j \in 1..N : SelLo(f, Hist[j])}
+Definite2(f) == SelSet(f) = {j \in 1..N : SelHi(f, Hist[j])}
+B_LawAccumulate ==
+  LET f == Refine(Refine(FAll, p), q)
+      g == Refine(Refine(FAll, p), ListM(<<>>, <<q>>))
+      constp == KPat(p) \in {"all", "none"}
+  IN /\ Definite2(f) /\ Definite2(g)
+     /\ SelSet(f) = (IF KPat(q) = "all" THEN 1..N ELSE IF constp THEN Sel(q) ELSE Sel(p) \cup Sel(q))
+     /\ SelSet(g) = (IF KPat(q) = "all" THEN {} ELSE IF constp THEN (1..N) \ Sel(q) ELSE Sel(p) \ Sel(q))
 
 LawStarBang == phase < 2 \/ B_LawStarBang
 LawSingleton == phase < 2 \/ B_LawSingleton
@@ -134,6 +145,7 @@ LawDestroyed == phase < 2 \/ B_LawDestroyed
 LawConjunction == phase < 2 \/ B_LawConjunction
 LawConst == phase < 2 \/ B_LawConst
 LawRefine == phase < 2 \/ B_LawRefine
+LawAccumulate == phase < 2 \/ B_LawAccumulate
 
 EmitScript == PrintT(<<"SCRIPT", ToJson(Script)>>)
 Emit == phase' = 1 => (p' = StarP => EmitScript) /\ PrintT(<<"ROW", ToJson([p |-> p', sel |-> SetToSeq({j \in 1..N : Sem(p', h[j])})])>>)
